@@ -194,7 +194,7 @@ Proof. exact DlCacheProofs.dlcache_new_size0_refuted. Qed.
 Print Assumptions dlcache_new_size0_refuted.
 
 (* the hypotheses are satisfiable: the instance run against the C code (C strings compared by
-   content, front/hash.c) has a correct equality test; a reachable cache that has grown three times
+   content, front/hash.c) has a correct equality test; a reachable cache that has grown three times (2 -> 4 -> 8 -> 16)
    and still returns the first library's handle *)
 Example cname_eqb_correct : forall a b, cname_eqb a b = true <-> a = b.
 Proof. exact DlCacheProofs.cname_eqb_spec. Qed.
@@ -203,8 +203,8 @@ Example reachable_example :
   exists c0 c rs,
     dl_new 2 (Some (name_host, 1%N)) = Ok c0 /\
     run cname cname_eqb hash_string N c0
-        (map (fun k => OGet [N.of_nat k] (Some (N.of_nat (100 + k)))) (seq 97 12)) = Ok (c, rs) /\
-    t_size c = 32 /\ t_count c = 13 /\
+        (map (fun k => OGet [N.of_nat k] (Some (N.of_nat (100 + k)))) (seq 97 6)) = Ok (c, rs) /\
+    t_size c = 16 /\ t_count c = 7 /\
     dlcache_lookup cname cname_eqb hash_string N c [97%N] = Some 197%N /\
     dlcache_lookup cname cname_eqb hash_string N c name_host = Some 1%N.
 Proof. do 3 eexists. vm_compute. repeat split; reflexivity. Qed.
